@@ -49,6 +49,9 @@ class CallMixin:
                 args, kwargs = self.eval_args(node, st)
                 if isinstance(fn, ast.Attribute) and "self" in lc[key].params:
                     args = [self.eval(fn.value, st)] + args
+                if "callee_" in lc[key].params:
+                    kwargs = dict(kwargs)
+                    kwargs["callee_"] = self.eval(fn, st)  # the called object itself, for contracts about "created by this class"
                 return self.apply_contract(lc[key], args, kwargs, st, node, label=key)
         if isinstance(fn, ast.Attribute) and fn.attr == "__setattr__" and isinstance(fn.value, ast.Name) and fn.value.id == "object" and len(node.args) == 3 \
                 and isinstance(node.args[1], ast.Constant) and not self.spec_mode:
@@ -721,6 +724,23 @@ class CallMixin:
                 vals = z3.If(present, p.vals, z3.Store(p.vals, kb, db))
                 self.store_back(recv_node, Sym("dict", None, base.spec, DictPayload(keys, vals, p.kspec, p.vspec, p.mode)), st)
                 return unbox(p.vspec, z3.If(present, z3.Select(p.vals, kb), db), st)
+            if meth == "pop":
+                kb = box(args[0], st)
+                present = self.dict_has_pyeq(base, kb, st) if p.mode == "pyeq" else seq_contains(p.keys, kb, st)
+                if len(args) < 2:
+                    self.may_raise(st, z3.Not(present), "KeyError", f"dict.pop line {node.lineno}")
+                    d = None
+                else:
+                    d = args[1]
+                r = Q._fresh_sq(st, "popkeys")
+                x = fresh("px", V)
+                i, j = fresh("pi", IntS), fresh("pj", IntS)
+                st.assume(z3.ForAll([x], seq_contains(r, x) == z3.And(seq_contains(p.keys, x), x != kb)))
+                st.assume(Q.Distinct(r))
+                st.assume(Q.Length(r) == Q.Length(p.keys) - z3.If(present, 1, 0))
+                self.store_back(recv_node, Sym("dict", None, base.spec, DictPayload(r, p.vals, p.kspec, p.vspec, p.mode)), st)
+                got = unbox(p.vspec, z3.Select(p.vals, kb), st)
+                return got if d is None else self.ite(present, got, d, st)
             raise Unsupported(f"dict.{meth}")
         raise Unsupported(f"mutate {base.kind}.{meth}")
 
